@@ -6,6 +6,7 @@ import (
 	"sort"
 	"strconv"
 	"strings"
+	"sync"
 
 	"github.com/hneemann/parser2/funcGen"
 	"github.com/hneemann/parser2/value"
@@ -423,6 +424,25 @@ const (
 	unspecCombineMissing = "combine with a key missing in the other map: error (implementation, DESIGN.md App. B) or intersection (method description)"
 )
 
+// replaceOutsideAdds is the reading of "replace with a replacement key outside the original key set"
+// (added or ignored). The property text does not fix it, so it is read off the implementation ONCE, on
+// the shallowest case {a:1}.replace(m->{c:2}); the same reading is then demanded of every replace at
+// every nesting depth and in every representation (a flattening replace must not behave differently
+// from the first one: that is exactly "all representations behave as one abstract map").
+var replaceOutsideAdds = sync.OnceValue(func() bool {
+	g := value.New()
+	f, _, err := g.Generate("{a:1}.replace(m->{c:2}).size()")
+	if err != nil {
+		return false
+	}
+	v, err := f.Eval()
+	if err != nil {
+		return false
+	}
+	n, _ := v.(value.Int)
+	return n == 2
+})
+
 func modelOp(o op, pool []*handle) expect {
 	a := pool[o.A].mod
 	switch o.K {
@@ -451,7 +471,10 @@ func modelOp(o op, pool []*handle) expect {
 		if _, ok := a[o.Key]; ok {
 			return expect{applicable: true, cands: []model{r}}
 		}
-		return expect{applicable: true, cands: []model{a.clone(), r}, unspec: unspecReplaceOutside}
+		if replaceOutsideAdds() {
+			return expect{applicable: true, cands: []model{r}, unspec: unspecReplaceOutside}
+		}
+		return expect{applicable: true, cands: []model{a.clone()}, unspec: unspecReplaceOutside}
 	case "replby":
 		b := pool[o.B].mod
 		ign, add := a.clone(), a.clone()
@@ -465,7 +488,10 @@ func modelOp(o op, pool []*handle) expect {
 			}
 		}
 		if outside {
-			return expect{applicable: true, cands: []model{ign, add}, unspec: unspecReplaceOutside}
+			if replaceOutsideAdds() {
+				return expect{applicable: true, cands: []model{add}, unspec: unspecReplaceOutside}
+			}
+			return expect{applicable: true, cands: []model{ign}, unspec: unspecReplaceOutside}
 		}
 		return expect{applicable: true, cands: []model{ign}}
 	case "eval":
